@@ -10,6 +10,7 @@ for d in seeded/${1:-}*/; do
   if ! (cd $WT && git apply /verif/$d/patch.diff 2>/dev/null); then echo "$n PATCH-DOES-NOT-APPLY"; continue; fi
   out=$(VERIF_REPO=$WT timeout 3000 ./check $prop --tier quick 2>&1); rc=$?
   cls=$(echo "$out" | grep "^  \[" | head -2 | cut -c1-110 | tr '\n' ' ')
-  if [ $rc -eq 1 ] && echo "$out" | grep -q "^VIOLATION"; then echo "$n CAUGHT $cls"; else echo "$n MISSED rc=$rc"; fi
+  expect=$(/venv/bin/python -c "import json,sys; print(json.load(open('/verif/$d/meta.json')).get('detected_by_check',''))" 2>/dev/null)
+  if [ $rc -eq 1 ] && echo "$out" | grep -q "^VIOLATION"; then echo "$n CAUGHT $cls"; elif [ "$expect" = "false" ] || [ "${expect#no}" != "$expect" ]; then echo "$n NOT-REPORTED-BY-DESIGN rc=$rc (see meta.json)"; else echo "$n MISSED rc=$rc"; fi
   (cd $WT && git checkout -q -- . && git clean -fdq)
 done
